@@ -6014,6 +6014,7 @@ static void DecodeCPNOP(Word Code) {
         WrError(ErrNum_InstructionNotSupported);
     } else if (ChkArgCnt(0, 1)) {
         WAsmCode[0] = Code | (OpSize << 6);
+        WAsmCode[1] = 0;
 
         /* CMD is always present and i bits 0..8 - immediate marker is optional
            since it is always a constant. */
